@@ -48,6 +48,9 @@
 (*             (and of onboarding) that the second run was not to write    *)
 (*             to, before and after it; verify_prev, printed_prev: the     *)
 (*             verify command on the first run's file, after the second    *)
+(*   digsite, digclass   which digest of the genuine device was ground to   *)
+(*             which class (z1 / z2: ends in one / two zero bytes, lz:     *)
+(*             starts with one, sp / nl: ends in a blank / line feed)      *)
 (*   sigsite, sigclass   which signature(s) of the genuine device were     *)
 (*             ground to which "<r class>/<s class>" shape ("none", "any") *)
 (*   g_err, v_err   "none" | "AdminError" | "raw": how the attestation /   *)
@@ -112,6 +115,7 @@ WellFormedP(o) ==
     /\ o.plat \in {"ledger", "sgx"}
     /\ o.hist \in {"single", "reattest", "inplace", "sameout", "reuse0", "two"}
     /\ o.sigclass \in (ShapeClasses \cup {"any"})
+    /\ o.digclass \in {"ord", "z1", "z2", "lz", "sp", "nl"} /\ ((o.digsite = "none") <=> (o.digclass = "ord"))
     /\ ((o.sigsite = "none") <=> (o.sigclass = "any"))
     /\ o.gather \in {"ok", "fail"} /\ o.verify \in {"ok", "fail", "na"}
     /\ o.g_onboard \in {"ok", "fail", "na"} /\ o.g_attest \in {"ok", "fail", "na"}
